@@ -33,12 +33,19 @@ type cbConsumer struct {
 	credits  chan struct{}
 	waiting  int32
 	inflight int32
+	entered  int32 // callbacks entered
+	passed   int32 // callbacks that returned
+	// wait hints kept by the script (they never change what is observed, only how long an op waits):
+	given    int32 // credits released so far
+	expected int32 // jobs the store should have queued for this consumer (Puts while registered, a close signal)
+	active   bool  // currently the registered consumer of its id
 	jobs     atomic.Pointer[beacon.VerifJobChan]
 }
 
 func (c *cbConsumer) callback(b *common.Beacon, closed bool) {
 	atomic.AddInt32(&c.inflight, 1)
 	defer atomic.AddInt32(&c.inflight, -1)
+	defer atomic.AddInt32(&c.passed, 1)
 	c.mu.Lock()
 	if closed {
 		c.got = append(c.got, "closed")
@@ -46,6 +53,7 @@ func (c *cbConsumer) callback(b *common.Beacon, closed bool) {
 		c.got = append(c.got, strconv.FormatUint(b.Round, 10))
 	}
 	c.mu.Unlock()
+	atomic.AddInt32(&c.entered, 1)
 	if c.gated {
 		atomic.StoreInt32(&c.waiting, 1)
 		<-c.credits
@@ -83,10 +91,16 @@ func newCbSUT() *cbSUT {
 func (s *cbSUT) settled() bool {
 	chk := func() bool {
 		for _, c := range s.cons {
-			if atomic.LoadInt32(&c.waiting) == 1 {
-				continue
+			ent, pas := atomic.LoadInt32(&c.entered), atomic.LoadInt32(&c.passed)
+			want := c.expected
+			if c.gated && c.given+1 < want {
+				want = c.given + 1 // it sits in callback number given+1
 			}
-			if atomic.LoadInt32(&c.inflight) != 0 || c.jobs.Load().Len() != 0 {
+			wantPassed := want
+			if c.gated && c.given < wantPassed {
+				wantPassed = c.given
+			}
+			if ent != want || pas != wantPassed {
 				return false
 			}
 		}
@@ -153,8 +167,15 @@ func cbstoreEngine(_ []string, in *bufio.Scanner, out *bufio.Writer) {
 				}()
 				select {
 				case <-done:
+					if old != nil && old.active {
+						old.active = false
+						old.expected++ // the close signal
+					}
+					c.active = true
 					s.cons[f[1]] = c
-					_ = old
+					if old != nil {
+						s.cons[fmt.Sprintf("old%d:%s", len(s.cons), f[1])] = old
+					}
 					return "ok"
 				case <-time.After(watchdog()):
 					s.wCh = done
@@ -168,6 +189,9 @@ func cbstoreEngine(_ []string, in *bufio.Scanner, out *bufio.Writer) {
 				}
 				done := make(chan bool, 1)
 				go func() { s.top.RemoveCallback(f[1]); done <- true }()
+				if c := s.cons[f[1]]; c != nil {
+					c.active = false
+				}
 				select {
 				case <-done:
 					return "ok"
@@ -181,6 +205,11 @@ func cbstoreEngine(_ []string, in *bufio.Scanner, out *bufio.Writer) {
 				}
 				r := s.head + 1
 				done := make(chan error, 1)
+				for _, c := range s.cons {
+					if c.active {
+						c.expected++
+					}
+				}
 				go func() { done <- s.top.Put(s.ctx, streamBeacon(r)) }()
 				select {
 				case err := <-done:
@@ -204,7 +233,10 @@ func cbstoreEngine(_ []string, in *bufio.Scanner, out *bufio.Writer) {
 				for i := 0; i < n; i++ {
 					c.credits <- struct{}{}
 				}
-				s.settled()
+				c.given += int32(n)
+				if s.putCh == nil && s.wCh == nil {
+					s.settled()
+				}
 				return "ok"
 			case "wait":
 				deadline := time.After(watchdog())
@@ -225,8 +257,17 @@ func cbstoreEngine(_ []string, in *bufio.Scanner, out *bufio.Writer) {
 						s.wCh = nil
 						for k, c := range s.cons {
 							if strings.HasPrefix(k, "pending:") {
+								id := strings.TrimPrefix(k, "pending:")
 								delete(s.cons, k)
-								s.cons[strings.TrimPrefix(k, "pending:")] = c
+								if old := s.cons[id]; old != nil {
+									if old.active {
+										old.active = false
+										old.expected++ // the close signal
+									}
+									s.cons[fmt.Sprintf("old%d:%s", len(s.cons), id)] = old
+								}
+								c.active = true
+								s.cons[id] = c
 							}
 						}
 					case <-deadline:
